@@ -177,6 +177,15 @@ func retag(v any) Node {
 		}
 		return Node{"k": keys, "o": out}
 	case "flt":
+		// a small dyadic rational n / 2^k (absval's q field) is exact in TLC integers: {"fq": [n, k]}
+		if q, ok := m["q"]; ok {
+			switch tq := q.(type) {
+			case []int64:
+				return Node{"fq": []int64{tq[0], tq[1]}}
+			case []any:
+				return Node{"fq": []int64{toInt(tq[0]), toInt(tq[1])}}
+			}
+		}
 		return Node{"x": fmt.Sprintf("flt:%v", m["s"])}
 	}
 	return Node{"x": fmt.Sprintf("%v:%v", m["t"], m["go"])}
@@ -396,8 +405,21 @@ func scalar(n Node) (any, bool) {
 	if s, ok := n["s"]; ok {
 		return s, true
 	}
+	if q, ok := n["fq"]; ok {
+		var num, k int64
+		switch tq := q.(type) {
+		case []int64:
+			num, k = tq[0], tq[1]
+		case []any:
+			num, k = toInt(tq[0]), toInt(tq[1])
+		}
+		return float64(num) / float64(int64(1)<<uint(k)), true
+	}
 	return nil, false
 }
+
+// Flt is the float n / 2^k.
+func Flt(n, k int64) Node { return Node{"fq": []int64{n, k}} }
 
 func kindOf(n Node) string {
 	for _, k := range []string{"a", "o", "i", "s", "b", "z"} {
@@ -571,6 +593,8 @@ func genOf(n Node) gen.Node {
 			return gen.Bool(t)
 		case int64:
 			return gen.Int(t)
+		case float64:
+			return gen.Float(t)
 		case string:
 			return gen.String(t)
 		}
@@ -648,6 +672,15 @@ func FFilterMR(key, cmp string, sw bool, rk string, rf Frag) Frag {
 	return Frag{"f": "filter", "op": "mr", "key": key, "cmp": cmp, "sw": sw, "rk": rk, "rf": rf, "c": Null()}
 }
 
+// FFilterCmp is `@.key <cmp> c` (key "" : `@ <cmp> c`; sw: `c <cmp> @.key`), cmp in lt, gt, le, ge, c an int or a float node.
+func FFilterCmp(key, cmp string, sw bool, c Node) Frag {
+	f := Frag{"f": "filter", "op": "cmps", "cmp": cmp, "sw": sw, "c": c}
+	if key != "" {
+		f["op"], f["key"] = "cmpk", key
+	}
+	return f
+}
+
 // FFilterRoot is `@.key == $.rk`: the right operand comes from the root of the evaluation.
 func FFilterRoot(key, rk string) Frag {
 	return Frag{"f": "filter", "op": "eqr", "key": key, "rk": rk, "c": Null()}
@@ -691,6 +724,8 @@ func equationOf(f Frag) *jp.Equation {
 		switch t := v.(type) {
 		case int64:
 			ce = jp.ConstInt(t)
+		case float64:
+			ce = jp.ConstFloat(t)
 		case string:
 			ce = jp.ConstString(t)
 		case bool:
@@ -700,6 +735,24 @@ func equationOf(f Frag) *jp.Equation {
 		}
 	}
 	switch op {
+	case "cmpk", "cmps":
+		operand := jp.Get(jp.A())
+		if op == "cmpk" {
+			operand = jp.Get(jp.A().C(key))
+		}
+		l, r := operand, ce
+		if sw, _ := f["sw"].(bool); sw {
+			l, r = r, l
+		}
+		switch f["cmp"] {
+		case "lt":
+			return jp.Lt(l, r)
+		case "gt":
+			return jp.Gt(l, r)
+		case "le":
+			return jp.Lte(l, r)
+		}
+		return jp.Gte(l, r)
 	case "nes":
 		return jp.Neq(jp.Get(jp.A()), ce)
 	case "nek":
